@@ -29,6 +29,7 @@ type C12Op struct {
 	K       string      `json:"k"` // post | publish | lease | ack
 	Route   int         `json:"route"`
 	BodyLen int         `json:"body_len,omitempty"`
+	Chunked bool        `json:"chunked,omitempty"` // body sent without a declared length
 	Headers [][2]string `json:"headers,omitempty"`
 	N       int         `json:"n,omitempty"` // publish batch size / lease batch
 	DupID   bool        `json:"dup_id,omitempty"`
@@ -106,10 +107,11 @@ func genC12Case() *rapid.Generator[C12Case] {
 			op.Route = rapid.IntRange(0, nroutes-1).Draw(t, "route")
 			switch op.K {
 			case "post":
-				op.BodyLen = rapid.SampledFrom([]int{0, 1, maxBody - 1, maxBody, maxBody, maxBody + 1}).Draw(t, "body_len")
+				op.BodyLen = rapid.SampledFrom([]int{0, 1, maxBody - 1, maxBody, maxBody, maxBody + 1, maxBody + 1, 3*maxBody + 7, 100 * maxBody}).Draw(t, "body_len")
 				if op.BodyLen < 0 {
 					op.BodyLen = 0
 				}
+				op.Chunked = rapid.IntRange(0, 2).Draw(t, "chunked") == 0
 				if rapid.IntRange(0, 2).Draw(t, "hdrs") == 0 {
 					// header bytes around max_headers: name "X-Pad" (5) + value
 					vlen := rapid.SampledFrom([]int{0, 1, maxHeaders - 6, maxHeaders - 5, maxHeaders - 4, maxHeaders}).Draw(t, "vlen")
@@ -204,7 +206,7 @@ func runC12(c C12Case, _ bool) *fOutcome {
 		switch op.K {
 		case "post":
 			body := []byte(strings.Repeat("b", op.BodyLen))
-			req := FReq{Method: "POST", Path: route, Host: "h", Remote: "203.0.113.9:1", Headers: op.Headers, Body: body}
+			req := FReq{Method: "POST", Path: route, Host: "h", Remote: "203.0.113.9:1", Headers: op.Headers, Body: body, Chunked: op.Chunked}
 			faultIdx := 0
 			if op.FaultAt > 0 && op.FaultAt <= len(targets) {
 				faultIdx = op.FaultAt
@@ -256,6 +258,9 @@ func runC12(c C12Case, _ bool) *fOutcome {
 				upper += len(kv[0]) + len(kv[1]) + 4
 			}
 			mustBody413 := op.BodyLen > c.MaxBody
+			if op.Chunked {
+				out.Labels["undeclared-length"] = true
+			}
 			mustHdr413 := lower > c.MaxHeaders
 			mayHdr413 := upper > c.MaxHeaders
 			mk := func(clause, format string, args ...any) bool {
